@@ -171,7 +171,7 @@ MU = dict(owners=mu_mix_owners)
 PLANS['C02'] = dict(
     rule=RULE_B + RULE_A + 'non-trivial = at least one acquisition or wait slept, or a try-lock failed.',
     groups=[
-        G('mu_mix', 'c-plain', 'B', 14, 6000, thorough=60000, **MU),
+        G('mu_mix', 'c-plain', 'B', 14, 12000, thorough=60000, **MU),
         G('mu_mix', 'c-plain', 'A', 4, 1500, thorough=40000, **MU),
     ],
 )
@@ -217,7 +217,7 @@ PLANS['C06'] = dict(
         G('cond_scale', 'c-plain', 'A', 1, 150, thorough=6000, **MU),
     ],
 )
-PLANS['C02']['groups'] += [G('cond_rounds', 'c-plain', 'B', 12, 8000, thorough=80000, **MU), G('cond_rounds', 'c-plain', 'A', 2, 1500, thorough=40000, **MU)]
+PLANS['C02']['groups'] += [G('cond_rounds', 'c-plain', 'B', 14, 14000, thorough=80000, **MU), G('cond_rounds', 'c-plain', 'A', 2, 1500, thorough=40000, **MU)]
 
 
 def c15_owners(w, home):
